@@ -1,0 +1,22 @@
+//go:build verif
+
+package mrpc
+
+import (
+	"net"
+	"sync/atomic"
+)
+
+// Verification hook, only compiled with the verif build tag.
+
+// VerifConnFn, when set, is told about every connection an RPC server takes
+// over (server address, connection), so that a harness that restarts a node
+// inside one process can drop the old server's connections the way a process
+// exit would.
+var VerifConnFn atomic.Pointer[func(serverAddr string, conn net.Conn)]
+
+func verifConn(serverAddr string, conn net.Conn) {
+	if fn := VerifConnFn.Load(); fn != nil {
+		(*fn)(serverAddr, conn)
+	}
+}
